@@ -21,7 +21,7 @@ TSPECS = [None, [b"i"], [b"", b"i"], [b"i", b"ii"], [b"ii", b"i"], [b"i", b""],
           [b"if", b"i", b"f"], [b"s"], [b"iii", b""], [b""]]
 
 RULE = ("exhaustive small scope: every well-formed pattern built from 1..3 segments over literals "
-        "{a b ab a/ 1 /}, enumerations {#2 #10 #01}, alternatives {{a,b} {a,ab} {ab,a} {,a} {1,a} {a/,b}} "
+        "{a b ab a/ 1 /}, enumerations {#2 #10 #01}, alternatives {{a,b} {ab,b} {a/,b} {1,a} {a,ab} {,a}} "
         "(3-segment patterns from an 8-block subset), with and without trailing '/', ten ':types' specs "
         "round-robin, against EVERY address over the 11-letter alphabet 'abc0129/#*,' up to length 4 (quick) "
         "/ 5 (thorough) and 9 type strings; plus random larger patterns (up to 6 segments, 9-digit N, "
@@ -300,9 +300,6 @@ def spec_check(case, impl):
                 r = check_types_bit(ast, ty, (mask >> k) & 1, "rtosc_match on %r" % a)
                 if r:
                     return r
-        for a in exp:
-            if mine(a) and a not in got:
-                return "missing-match: %r spells the pattern but is not matched" % a
         if anomalies:
             return "path-end: rtosc_match and rtosc_match_path disagree on *path_end for %d addresses" % anomalies
         for k, ty in enumerate(tys):
@@ -310,6 +307,10 @@ def spec_check(case, impl):
                 r = check_types_bit(ast, ty, (bits >> k) & 1, nm)
                 if r:
                     return r
+        # last: the only kind of failure a known finding can excuse
+        for a in sorted(exp):
+            if mine(a) and a not in got:
+                return "missing-match: %r spells the pattern but is not matched" % a
         return None
     return "crash: unknown case kind"
 
@@ -336,10 +337,10 @@ def nontrivial(case, impl):
 # ---------------------------------------------------------------------------
 L_ALL = [("L", b"a"), ("L", b"b"), ("L", b"ab"), ("L", b"a/"), ("L", b"1"), ("L", b"/")]
 E_ALL = [("E", b"2"), ("E", b"10"), ("E", b"01")]
-A_ALL = [("A", [b"a", b"b"]), ("A", [b"a", b"ab"]), ("A", [b"ab", b"a"]), ("A", [b"", b"a"]),
-         ("A", [b"1", b"a"]), ("A", [b"a/", b"b"])]
+A_ALL = [("A", [b"a", b"b"]), ("A", [b"ab", b"b"]), ("A", [b"a/", b"b"]), ("A", [b"1", b"a"]),
+         ("A", [b"a", b"ab"]), ("A", [b"", b"a"])]
 SMALL = [("L", b"a"), ("L", b"b/"), ("L", b"1"), ("E", b"2"), ("E", b"10"),
-         ("A", [b"a", b"b"]), ("A", [b"a", b"ab"]), ("A", [b"", b"a"])]
+         ("A", [b"a", b"b"]), ("A", [b"ab", b"b"]), ("A", [b"a", b"ab"])]
 
 def grammar_patterns():
     blocks = L_ALL + E_ALL + A_ALL
